@@ -7,7 +7,7 @@ N_QUICK = 2400
 N_THOROUGH = 60000
 SHARD = 200
 SHRINK_KEYS = ["rows", "quad", "lin", "labels"]
-RULE = ("BQMs (float64/float32/object dtype with float biases; int, string, float, nested-tuple and mixed labels; SPIN/BINARY; 0-12 variables) "
+RULE = ("BQMs (float64/float32/object dtype, object models with Python float or mixed int/float biases; int, string, float, nested-tuple and mixed labels; SPIN/BINARY; 0-12 variables) "
         "through to_serializable->from_serializable directly, as JSON text, through DimodDecoder, with use_bytes, pickle protocols 2-5, "
         "deepcopy, copy, .copy(): coefficients before/after and the emitted vector form compared in Coq; COO text (non-negative integer "
         "labels, with/without header); sample sets (SPIN, BINARY, INTEGER, DISCRETE, REAL; sample dtypes int8..int64, uint8, bool, float32/64; "
@@ -22,5 +22,5 @@ TRUSTED = ["model: coq/theories/Model/{Comb,Ser,Poly,ChkC11}.v (hand written mir
            "energies, num_occurrences, extra vectors and info are compared by the worker in Python (exact ==, dtype and shape), not in Coq"]
 ASSUMPTIONS = ["generated numbers are small dyadics, exactly representable in every dtype used",
                "labels after a round trip are compared with Python dict semantics (a float label equal to its own position is handed back by Variables as that int), but the emitted variable_labels must carry ints for integer labels and floats for float labels, nested ones included; label pools contain integers beyond 2^53 so that a float detour changes the value",
-               "object-dtype BQMs in the random stream hold Python floats (Python-int biases: see findings obj_bqm_*)"]
+               "object-dtype BQMs hold Python floats or, half of the time, Python ints for integral biases and offsets"]
 PARTIAL = []
